@@ -62,6 +62,34 @@ TECH_TRE = ("Lean 4 machine-checked proof; the transform loop nests of the Naive
             "proved equal to the model transforms; kernels and the rest on a hand-written model + differential correspondence")
 
 
+def gen_src_default():
+    """C07 / C09: regenerate lean/RSVerif/Gen/SrcDefault.lean from rate_default.rs (DefaultRate new / reset)"""
+    out = os.path.join(VERIF, "lean", "RSVerif", "Gen", "SrcDefault.lean")
+    p = subprocess.run([sys.executable, os.path.join(VERIF, "translate", "rs2lean_default.py"), "/repo", out],
+                       stdout=subprocess.PIPE, stderr=subprocess.STDOUT, text=True)
+    return p.returncode, p.stdout
+
+
+def gen_c07():
+    out_all = ""
+    for g in (gen_src_work, gen_src_envelope, gen_src_default):
+        rc, out = g()
+        out_all += out
+        if rc != 0:
+            return rc, out_all
+    return 0, out_all
+
+
+def gen_c09():
+    out_all = ""
+    for g in (gen_src_envelope, gen_src_default):
+        rc, out = g()
+        out_all += out
+        if rc != 0:
+            return rc, out_all
+    return 0, out_all
+
+
 def gen_statics():
     """C05 / C16: regenerate lean/RSVerif/Gen/Statics.lean (global state declared in today's source)"""
     out = os.path.join(VERIF, "lean", "RSVerif", "Gen", "Statics.lean")
@@ -179,7 +207,7 @@ PROPS = {
         "run_filter_failed: any op sequence ends in the same state as the sequence with the failing calls removed. Direct oracle: history with "
         "injected failing calls vs the same history without them on the implementation.",
         "cases = histories with injected failing calls of every kind; each compared with its failure-free version",
-        pre_lean=gen_src_work, technique=TECH_TRW,
+        pre_lean=gen_c07, technique=TECH_TRW,
         design_ref="DESIGN.md §6 C07",
     ),
     "C08": P(
@@ -202,7 +230,7 @@ PROPS = {
         "boundary of the rule, with rate-crossing resets; default decoder decodes dedicated-encoded shards. Source level: use_high_rate as translated "
         "from today's source obeys the rule for all arguments (source_rate_rule).",
         "cases = configurations on the rule's boundary and random ones, with and without rate-crossing reset histories",
-        pre_lean=gen_src_envelope, technique=TECH_TR,
+        pre_lean=gen_c09, technique=TECH_TR,
         design_ref="DESIGN.md §6 C09",
     ),
     "C10": P(
